@@ -301,8 +301,15 @@ def _lower(stmts, emit):
                     test=s.test, body=(b + r) or [ast.Pass()],
                     orelse=o or []), s))
                 return out, rr
-            # returns deeper inside: both branches continue into the rest
-            raise CannotInline("conditional return shape")
+            # returns deeper inside: the continuation goes into both
+            # branches (duplicated; helpers are small)
+            b2, br2 = _lower(list(s.body) + [copy.deepcopy(x) for x in rest],
+                             emit)
+            o2, orr2 = _lower(list(s.orelse) +
+                              [copy.deepcopy(x) for x in rest], emit)
+            out.append(ast.copy_location(ast.If(
+                test=s.test, body=b2 or [ast.Pass()], orelse=o2), s))
+            return out, br2 and orr2
         if _has(s, ast.Return):
             raise CannotInline("return inside loop/try")
         out.append(s)
